@@ -192,3 +192,37 @@ def _unquote(v):
     if len(v) >= 2 and v[0] == '"' and v[-1] == '"':
         return v[1:-1]
     return v
+
+
+def ref_base(flow, operand, depth=0):
+    """the local whose storage a reference-typed operand points into (through reborrows,
+    copies and transparent wrappers); None if not a unique simple chain"""
+    p = op_place(operand) if isinstance(operand, dict) and ("c" in operand or "m" in operand) else None
+    if p is None or depth > 25:
+        return None
+    l = p["l"]
+    proj = [e for e in pproj(p)]
+    if any(e[0] != "deref" for e in proj):
+        return l
+    ds = [d for d in flow.defs.get(l, ()) if d[0] in ("assign", "call") and not d[3]]
+    if not ds:
+        return l  # parameter / upvar holder
+    if len(ds) != 1:
+        return l
+    d = ds[0]
+    if d[0] == "call":
+        t = d[4]
+        tr, _ = transparent(t)
+        if tr and t["args"]:
+            return ref_base(flow, t["args"][0], depth + 1)
+        return l
+    r = d[4]
+    if r["k"] in ("ref", "rawptr", "copyforderef"):
+        q = r["p"]
+        qp = pproj(q)
+        if qp and all(e[0] == "deref" for e in qp):
+            return ref_base(flow, {"c": {"l": q["l"], "p": []}}, depth + 1)
+        return q["l"]
+    if r["k"] in ("use", "cast"):
+        return ref_base(flow, r["o"], depth + 1) if op_place(r["o"]) is not None else l
+    return l
